@@ -728,10 +728,48 @@ class Interp:
             m = re.match(r'^(?:const )?(\d+)', rv.b)
             return VecVal([v] * int(m.group(1)))
         if k == 'closure':
-            return Closure(rv.a, [self.operand(fr, o) for o in rv.b])
+            caps = [self.operand(fr, o) for o in rv.b]
+            need = self.closure_ncaptures(rv.a)
+            if need is not None and len(caps) < need:
+                caps = caps + self.missing_captures(fr, rv, need - len(caps))
+            return Closure(rv.a, caps)
         if k == 'aggregate':
             return self.aggregate(fr, rv, dest_place)
         raise EngineError('rvalue kind %r' % k)
+
+    def closure_ncaptures(self, span):
+        f = self.prog.by_span_closure.get(span)
+        if f is None:
+            return None
+        idx = [int(x) for x in re.findall(r'\(\*?_1\)?\.(\d+): ', f.text)]
+        idx += [int(x) for x in re.findall(r'\(_1\.(\d+): ', f.text)]
+        return (max(idx) + 1) if idx else 0
+
+    def missing_captures(self, fr, rv, n):
+        """rustc's MIR printer zips the *variables* a closure mentions with its capture operands, so
+        when several fields of one variable are captured separately the trailing operands are not
+        printed.  They are the locals assigned in the current block that nothing else reads."""
+        cur = getattr(self, '_cur_block', None)
+        if cur is None:
+            raise EngineError('closure aggregate with unprinted captures outside a block context')
+        blk, upto = cur
+        printed = set(o.place.local for o in rv.b if o.kind != 'const' and not o.place.proj)
+        text = fr.fn.text
+        cands = []
+        for st in blk.stmts[:upto]:
+            if st.kind != 'assign' or st.place.proj:
+                continue
+            loc = st.place.local
+            if loc in printed or loc in cands:
+                continue
+            uses = len(re.findall(r'(?<![\w])_%d(?!\d)' % loc, text))
+            decl = len(re.findall(r'let (?:mut )?_%d:' % loc, text))
+            if uses - decl == 1:
+                cands.append(loc)
+        cands.sort()
+        if len(cands) < n:
+            raise EngineError('cannot reconstruct %d unprinted closure captures in %s' % (n, fr.fn.name))
+        return [fr.cells[c].v for c in cands[:n]]
 
     def aggregate(self, fr, rv, dest_place=None):
         path = mp.strip_generics(rv.a)
@@ -818,8 +856,10 @@ class Interp:
                 if self.steps > self.max_steps:
                     raise Truncated('step bound %d in %s' % (self.max_steps, f.name))
                 b = mp.block_parsed(f, bname)
-                for s in b.stmts:
+                for si, s in enumerate(b.stmts):
                     if s.kind == 'assign':
+                        if s.rv.kind == 'closure':
+                            self._cur_block = (b, si)
                         val = self.rvalue(fr, s.rv, s.place)
                         if not s.place.proj:
                             fr.cells[s.place.local].v = val
